@@ -370,6 +370,10 @@ pub fn oracle(sc: &Scenario, out: &Outcome) -> Vec<Violation> {
     let oi = sc.actors.len() - 1;
     let mode = scenario_field(&sc.name, "mode=");
     let ctx = format!("prog={}:end={}:cache={}{}", prog, ending, if caching { "on" } else { "off" }, if mode == "session" { ":session" } else { "" });
+    // cleanup_server_connections = false: the operator gave up resetting session state at check-in, not the
+    // rule that a connection left in a transaction, in COPY or with unread data is never handed on
+    let cleanup_off = sc.name.contains("cleanup=off");
+    let ctx = if cleanup_off { format!("{}:cleanup=off", ctx) } else { ctx };
 
     // hand-over points: first message of a client on a connection last used by another client
     for conn in conn_ids(log) {
@@ -384,7 +388,10 @@ pub fn oracle(sc: &Scenario, out: &Outcome) -> Vec<Violation> {
             };
             if let Some(prev) = last_user {
                 if prev != t.c {
-                    let reasons = dirty_reasons(st, caching);
+                    let mut reasons = dirty_reasons(st, caching);
+                    if cleanup_off {
+                        reasons.retain(|x| !(x.starts_with("guc:") || x == "role" || x == "named-statement" || x == "sql-prepared"));
+                    }
                     if !reasons.is_empty() {
                         vs.push(v(
                             "C02.dirty-handover",
@@ -529,13 +536,29 @@ pub fn build(tier: &str) -> SimCheck {
             }
         }
     }
+    // cleanup_server_connections = false
+    for cache in [0usize, 8] {
+        for prog in ["opentxn", "copyin", "halfbatch", "failedtxn", "set"] {
+            let (units, _) = victim_units(prog);
+            for k in 1..=units.len() {
+                for ending in ENDINGS {
+                    if let Some(mut sc) = scenario("transaction", cache, prog, (k, 0), ending, None) {
+                        sc.toml = sc.toml.replacen("[pools.db]\n", "[pools.db]\ncleanup_server_connections = false\n", 1);
+                        assert!(sc.toml.contains("cleanup_server_connections = false"));
+                        sc.name = format!("{} cleanup=off", sc.name);
+                        scenarios.push(sc);
+                    }
+                }
+            }
+        }
+    }
     scenarios.extend(midreply_scenarios(thorough));
     SimCheck {
         scenarios,
         oracle: Box::new(oracle),
         bound: 1,
         limits: Limits { max_wall_s: if thorough { 1500.0 } else { 50.0 }, ..Default::default() },
-        rule: "scenario = statement cache on/off x victim program x cut point (every message boundary; every byte offset inside the messages of 4 programs in quick, of all programs in thorough) x ending (natural, Terminate, hard drop, FIN, 5 malformed/invalid messages, idle-in-transaction timeout, statement timeout, a health check timing out on a slow server before the next checkout), then an observer checks out with pool_size=1; plus every generated extended-protocol batch program of C08 as victim (leaving by Terminate / hard drop); plus mid-reply disconnects at every backend message boundary (gated delivery, 1 deviation); distinct = distinct end-to-end histories".into(),
+        rule: "scenario = statement cache on/off x victim program x cut point (every message boundary; every byte offset inside the messages of 4 programs in quick, of all programs in thorough) x ending (natural, Terminate, hard drop, FIN, 5 malformed/invalid messages, idle-in-transaction timeout, statement timeout, a health check timing out on a slow server before the next checkout), then an observer checks out with pool_size=1; the transaction / COPY / batch victims also with cleanup_server_connections = false (session state then stays by configuration, open transactions and unread data still must not); plus every generated extended-protocol batch program of C08 as victim (leaving by Terminate / hard drop); plus mid-reply disconnects at every backend message boundary (gated delivery, 1 deviation); distinct = distinct end-to-end histories".into(),
         assumptions: vec![
             "the reference backend's own session state at the observer's first message defines 'clean'".into(),
             "state created inside a transaction block is out of the property's scope and not judged".into(),
